@@ -92,6 +92,8 @@ func codecSeq(fn *ssa.Function) []string {
 	return out
 }
 
+var codecInlineDepth int
+
 func codecSeqB(fn *ssa.Function) ([]string, []*ssa.BasicBlock) {
 	var seq []string
 	var blks []*ssa.BasicBlock
@@ -154,6 +156,13 @@ func codecSeqB(fn *ssa.Function) ([]string, []*ssa.BasicBlock) {
 				} else {
 					seq = append(seq, "helper:"+readSliceTarget(c))
 				}
+			case !cc.IsInvoke() && cc.StaticCallee() != nil && cc.StaticCallee().Blocks != nil && cc.StaticCallee() != fn && cc.StaticCallee().Signature.Recv() != nil && len(args) >= 1 && normIdx(Desc(args[0])) == "$0" && FuncPkg(cc.StaticCallee()) != nil && FuncPkg(fn) != nil && FuncPkg(cc.StaticCallee()).Path() == FuncPkg(fn).Path() && codecInlineDepth < 2:
+				// a helper method of the same object (writeHeader / readHeader, a loop body extracted into a method):
+				// its items are items of this codec, in place
+				codecInlineDepth++
+				sub := codecSeq(cc.StaticCallee())
+				codecInlineDepth--
+				seq = append(seq, sub...)
 			case (name == "Write" || name == "Read") && len(args) == 3 && cc.StaticCallee() != nil && FuncPkg(cc.StaticCallee()) != nil && FuncPkg(cc.StaticCallee()).Path() == "encoding/binary":
 				seq = append(seq, normItem(Desc(args[2])))
 			case name == "WriteSlice" || name == "ReadSlice":
